@@ -882,6 +882,9 @@ func RoleSlotOf(t string) int {
 
 // AddrString draws a new-role-holder string: mostly valid.
 func (g *G) AddrString(label string) string {
+	if p := g.W.Model.Pending; p != nil && g.Pct(label+"/nominee", 20) {
+		return *p // the account whose ownership nomination is in flight gets (another) role
+	}
 	switch g.Int(label+"/k", 0, 11) {
 	case 0:
 		return strings.ToUpper(Acct(g.Acct(label + "/a"))) // upper-case bech32 is valid bech32
